@@ -228,6 +228,20 @@ func (c *FnCtx) bytesOf(v Term, t types.Type) []string {
 			out = append(out, fmt.Sprintf("(mod (div %s %s) 256)", u, pow2(8*i)))
 		}
 	}
+	if c.mode == ModeInt && n >= 2 && n <= 8 {
+		// recomposition lemma (a consequence of the byte definitions, stated to spare the solver the div/mod
+		// reasoning): the little-endian sum of the bytes is the unsigned value
+		var parts []string
+		for i := 0; i < n; i++ {
+			out[i] = c.define("wb", SInt, out[i])
+			if i == 0 {
+				parts = append(parts, out[i])
+			} else {
+				parts = append(parts, fmt.Sprintf("(* %s %s)", pow2(8*i), out[i]))
+			}
+		}
+		c.assume("", fmt.Sprintf("(=> (and (<= 0 %s) (< %s %s)) (= (+ %s) %s))", u, u, pow2(w), strings.Join(parts, " "), u))
+	}
 	if c.mode == ModeBV { // Int-sorted value in bv mode (int/uint): bytes must be bv8
 		for i := range out {
 			out[i] = "(i2b8 " + out[i] + ")"
